@@ -6,11 +6,25 @@ from ..wfrun import run_wf
 H = "vq.harness.h_total"
 
 
+def latent_doy_jobs(prop):
+    """ruleLatentDOY after a leap day / at the year end: its exact contract (which implies
+    'raises nothing' and a well-formed result) on cells where the symbolic WF obligation is fragile"""
+    from ..harness.common import body
+    out = []
+    for (y, m) in ((2024, 3), (2024, 12), (2023, 3)):
+        e = {"VQ_Y": str(y), "VQ_M": str(m)}
+        out.append(Job("{}.LATENT-DOY-29Feb[{}-{:02d}]".format(prop, y, m), "vq.harness.h_latent", "ob_latentdoy_feb29_c", env=e, timeout=300,
+                       bounds="ts: every instant of {}-{:02d}; written date 29 Feb".format(y, m), functions=[fn_id(body("ruleLatentDOY"))], site="ruleLatentDOY"))
+    out.append(Job("{}.LATENT-DOY[2024-03]".format(prop), "vq.harness.h_latent", "ob_latentdoy_c", env={"VQ_Y": "2024", "VQ_M": "3"}, timeout=600,
+                   bounds="ts: every instant of 2024-03; every (day, month) pair except 29 Feb", functions=[fn_id(body("ruleLatentDOY"))], site="ruleLatentDOY"))
+    return out
+
+
 def extra_jobs(tier):
     from ..harness.common import CT, body
     import sys
     LD = sys.modules["ctparse.loader"]
-    return [
+    return latent_doy_jobs("C01") + [
         Job("C01.result", H, "ob_result", timeout=900,
             bounds="stream of 0..2 candidates (6 resolution kinds by index, 2 score values by index; indices symbolic, result construction untraced), the [None] stream, 6 raw texts incl. empty/label-only, latent on/off",
             functions=[fn_id(CT.ctparse), fn_id(CT.CTParse.__str__), fn_id(CT.CTParse.__repr__), fn_id(CT._get_labels)],
